@@ -23,7 +23,7 @@ from ..poly import RF, D, equal, sym
 from ..report import Check
 from ..symex import (SymEx, addends, as_number, calls_of, cases, contains, expand_ranges, factors, flatten_each, free_eaches, func_name, not_followed, show, show_pc,
                      subst, subterms, unwrap)
-from ..terms import Opaque, TermEval, Tup, vkey
+from ..terms import ExtractionError, Opaque, TermEval, Tup, vkey
 
 PID = "C02"
 HEL = "ampform.helicity"
@@ -79,6 +79,66 @@ TRANSITION = Opaque(("transition",))
 NODE_ID = sym("node_id")
 
 
+class DecayTermEval(TermEval):
+    """The term evaluator of the decay rules.  In addition to sa/terms.py it reads a PROPERTY of a plain record
+    object built on the way (``view = _LSCoupling(decay.interaction); view.angular_momentum``): a frozen record
+    holds nothing but its constructor arguments, so the value of the property is the value its body returns for that
+    record - ``view.angular_momentum`` IS ``decay.interaction.l_magnitude`` when that is what the property reads."""
+
+    _property_depth = 0
+
+    def _record_property(self, base, name: str):
+        if not isinstance(base, RF):
+            return None
+        rec = self.record_of(base)
+        if rec is None or name in dict(rec[1]):
+            return None
+        m = self.tree.lookup_method(rec[0], name)
+        if m is None:
+            return None
+        decorators = {unparse(d).split(".")[-1] for d in m.node.decorator_list}
+        if not decorators & {"property", "cached_property"}:
+            return None
+        if decorators - {"property", "cached_property"}:
+            raise ExtractionError(f"property `{name}` of {rec[0].qual} carries further decorators: not read")
+        return m
+
+    def _attr_of(self, base, attrs, node):
+        for a in attrs:
+            prop = self._record_property(base, a)
+            if prop is None:
+                base = super()._attr_of(base, [a], node)
+                continue
+            if self._property_depth >= self.inline_depth:
+                raise ExtractionError(f"inlining depth exceeded at {prop.qual}")
+            self._property_depth += 1
+            try:
+                base = self.eval_function(prop, [base], {}, self._property_depth)
+            finally:
+                self._property_depth -= 1
+        return base
+
+
+def unread_object_attribute(te: TermEval, value):
+    """``(attribute, class)`` if the scalar term ``value`` contains an attribute read on an object of a class of the
+    package that the evaluator constructed but did not look into (a property / a computed attribute of a helper
+    object): such an atom is a NAME for a value the evaluation did not follow, not the value."""
+    try:
+        term = te._rf(value)
+    except AnalysisError:
+        return None
+    for atom in term.atoms():
+        key = atom[1] if isinstance(atom, tuple) and len(atom) == 2 and atom[0] == "sym" else None
+        while isinstance(key, tuple) and len(key) == 3 and key[0] == "attr":
+            inner = key[1]
+            if isinstance(inner, tuple) and inner and inner[0] == "app" and inner in te.apps:
+                cls = te.apps[inner].cls
+                if any(c.name == cls or q == cls for q, c in te.tree.classes.items()):
+                    return key[2], cls
+            key = inner
+    return None
+
+
 def decay_evaluator(tree: Tree) -> TermEval:
     """A term evaluator for functions of ``(transition, node_id)``.  The decay of THAT node is the abstract
     record ``decay`` (any other arguments give another record); the functions that NAME the kinematic symbols
@@ -87,7 +147,7 @@ def decay_evaluator(tree: Tree) -> TermEval:
     (topology, state) is an opaque application.  Everything between (``_generate_kinematic_variables`` or
     whatever helper the package uses) is evaluated, so PHI means "phi of children[0] of this decay" however
     the code gets there."""
-    te = TermEval(tree)
+    te = DecayTermEval(tree)
     ft = tree.func(FROM_TRANSITION)
     names = ft.params[1:] if ft.params and ft.params[0] in {"cls", "self"} else ft.params
 
@@ -179,7 +239,12 @@ def _role_differs(te: TermEval, got, want: RF, role: str) -> bool:
         term = te._rf(got)
     except AnalysisError as exc:
         raise AnalysisError(f"the argument `{role}` does not evaluate to a scalar term: {exc}") from None
-    return not equal(term, want)
+    if equal(term, want):
+        return False
+    unread = unread_object_attribute(te, term)
+    if unread is not None:
+        raise AnalysisError(f"the argument `{role}` reads `.{unread[0]}` of a `{unread[1]}` object that the term evaluation did not look into: its value is not known")
+    return True
 
 
 def check_wigner_d(ctx: Check, tree: Tree) -> None:
@@ -491,6 +556,24 @@ class ChainModel:
         """Why the absence of an effect proves nothing: parts of the chain that were not followed (calls of methods /
         package functions that were not inlined and whose meaning the rules do not know, unmodelled statements)."""
         out = [*self.unread, *self.sx.imprecise]
+        # a statement that calls a method of the object that HOLDS the two mappings (``self.<holder>.m(...)``), or of an
+        # object on the way to it, and that was not executed: what it writes into them is not known
+        holders = set()
+        for ev in self.sx.events:
+            for x in ev[2:4]:
+                if isinstance(x, tuple) and x and isinstance(x[0], str):
+                    holders |= {t[1] for t in subterms(same_self(x)) if _self_mapping(t) in {"amplitudes", "components"}}
+        for ev in self.sx.events:
+            if ev[0] != "call":
+                continue
+            v = same_self(ev[2])
+            f = v[1]
+            if f[0] != "attr" or _self_mapping(("attr", f[1], "")) is None or any(f[2] == q or f[2].endswith(q) for q in KNOWN):
+                continue
+            if not holders or any(_is_prefix(f[1], h) for h in holders):
+                why = f"`{sx_show(v)[:70]}` is a method call on an object of the builder that was not followed"
+                if why not in out:
+                    out.append(why)
         for ev in self.sx.events:
             if ev[0] in {"call", "localcall", "store"}:
                 for x in ev[2:4]:
@@ -510,6 +593,16 @@ class ChainModel:
     def where(self, qual: str) -> str:
         fn = self.tree.funcs.get(qual)
         return self.tree.loc((fn or self.top).node)
+
+
+def _is_prefix(path, whole) -> bool:
+    """Is the attribute path ``path`` equal to ``whole`` or an object on the way to it (``self.a`` for ``self.a.b``)?"""
+    while True:
+        if whole == path:
+            return True
+        if not (isinstance(whole, tuple) and whole and whole[0] == "attr"):
+            return False
+        whole = whole[1]
 
 
 def _is_zero(v) -> bool:
